@@ -337,6 +337,8 @@ func rUniverse() []string {
 		return []string{"a", "ab", "ab/a"}
 	case 5: // names that begin with a dot (ordinary names: only "." and ".." are special)
 		return []string{".k", "b", ".k/.a"}
+	case 6: // names with glob metacharacters (ordinary bytes) next to a look-alike the pattern would match
+		return []string{"a[b]", "ab", "a[b]/c"}
 	}
 	return []string{"a", "b", "a/a"}
 }
@@ -351,6 +353,8 @@ func rCandidates() []string {
 		return []string{".", "a", "ab", "abc", "a/a", "a/ab", "ab/a", "ab/c"}
 	case 5:
 		return []string{".", ".k", "b", "...", ".k/.a", ".k/c", "b/.c", ".c"}
+	case 6:
+		return []string{".", "a[b]", "ab", "a*", "a[b]/c", "a[b]/a", "ab/c", "a?"}
 	}
 	return []string{".", "a", "b", "c", "a/a", "a/c", "c/c", "a/a/a", "a/a/c", "b/c"}
 }
